@@ -1,7 +1,7 @@
 """C09 — only points of the curve and of the order-r subgroup pass validated construction."""
 from core import report
 from core.sm9 import Repo
-from . import shared, grouplaw, consts, convert
+from . import shared, grouplaw, consts, conv2 as convert
 
 DECODERS = {"crate::G1::from_slice": {64}, "crate::G1::from_uncompressed": {65}, "crate::G1::from_compressed": {33},
             "crate::G2::from_slice": {128}, "crate::G2::from_uncompressed": {129}, "crate::G2::from_compressed": {65}}
@@ -9,7 +9,7 @@ DECODERS = {"crate::G1::from_slice": {64}, "crate::G1::from_uncompressed": {65},
 
 def run(ctx):
     repo = Repo(ctx.dev)
-    ls = convert.make_lensim(repo)
+    ls = convert.make_conv(repo)
     rules = grouplaw.rules_c09("C09", repo) + [convert.rule_funnel("C09", repo, ls, DECODERS), consts.rule_generators("C09", repo)]
     # the release-profile MIR has the same truth table
     repo_r = Repo(ctx.rel)
